@@ -67,7 +67,7 @@ def run_monitor(sc, event_files, v, module="Mon_Prio"):
                         break
                     out.write(line)
                     n_lines += 1
-    r = tlc(mon, module, cfg=module + ".cfg", workers=8, timeout=1500, extra=["-continue"])
+    r = tlc(mon, module, cfg=module + ".cfg", workers=8, timeout=1500 if v.tier == "quick" else 4000, extra=["-continue"])
     tool_errors = [l for l in r.out.splitlines() if l.startswith("Error:") and "Invariant" not in l and "behavior up to this point" not in l]
     # every record yields one state
     if not r.finished or r.distinct == 0 or tool_errors or (r.crashed and not r.inv_violated) or r.distinct < n_lines:
@@ -663,6 +663,8 @@ def record_v1(binary, sc, cfg, runs, timeout=900, only=0):
     cfgp = os.path.join(sub, "cfg.json")
     json.dump(cfg, open(cfgp, "w"))
     runs = int(runs) * int(cfg.get("runs_factor", 1))     # rare scenarios get more schedules (they are cheap)
+    if cfg.get("extra", {}).get("alone"):                  # the alone-scenario reproduces the known findings F4 / F6 in most runs of some
+        runs = min(runs, 400)                              # configurations: every such trace is printed by the monitor run (-continue)
     rc, out, wall = run_test(binary, "TestRecordV1$", env=dict(CFG=cfgp, OUT_DIR=sub, V1_RUNS=runs, ONLY_RUN=only), timeout=timeout)
     spin = None
     if rc == 3:
